@@ -3963,6 +3963,16 @@ class MethodOperatorAlign(OpAlignPartitions):
         return MethodOperator(op, frame, other, *args, **kwargs)
 
 
+class ComparisonAlign(MethodOperatorAlign):
+    # ``op`` is one of the BinOpFrame / BinOpSeries classes, followed by its
+    # remaining operands (axis or level, fill_value)
+    _parameters = ["frame", "other", "op"]
+
+    @staticmethod
+    def _op(frame, op, other, *args, **kwargs):
+        return op(frame, other, *args)
+
+
 class UFuncAlign(MaybeAlignPartitions):
     _parameters = ["frame", "func", "meta", "kwargs"]
     enforce_metadata = False
